@@ -248,78 +248,3 @@ fn c10_prove_side_positions_10_12() { prove_side_positions_range(10, 12); }
 // prove() (scratch before storage).  CBMC does not finish it in 25 minutes because root_node()
 // inserts into a hashbrown map, so it is not part of any check; prove()'s node fetching stays
 // outside the contracts (listed under not_covered).
-
-//@ props=C10 tier=quick class=bounded(n<=6) -- O-C10.4 for every n <= 6 and i < n the side positions walked by prove (leaf to root, root removed) are the RFC 6962 audit-path sibling subtrees
-#[kani::proof]
-#[kani::unwind(70)]
-fn c10_prove_side_positions_1_6() { prove_side_positions_range(1, 6); }
-
-//@ props=C10 tier=thorough class=bounded(n<=12) -- O-C10.4 side positions, n = 7..=9
-#[kani::proof]
-#[kani::unwind(70)]
-fn c10_prove_side_positions_7_9() { prove_side_positions_range(7, 9); }
-
-//@ props=C10 tier=thorough class=bounded(n<=12) -- O-C10.4 side positions, n = 10..=12
-#[kani::proof]
-#[kani::unwind(70)]
-fn c10_prove_side_positions_10_12() { prove_side_positions_range(10, 12); }
-
-// ---- O-C10.5 / O-C11.4: prove() takes freshly computed (scratch) nodes before persisted ones -----
-// A tree that was reset or loaded at an earlier leaf count sits on storage that may hold a node of a
-// *larger* tree at the position of one of its own unbalanced join nodes.  The proof must carry the
-// node of the current tree.  Shape: 7 leaves (peaks 3, 9, 12; joins 11 and 7), stale entry at 11.
-pub fn node_sum_model(l: &Bytes32, r: &Bytes32) -> Bytes32 {
-    let mut o = [0u8; 32];
-    o[0] = l[0].wrapping_mul(3) ^ r[0].wrapping_mul(5) ^ 0xa5;
-    o[1] = l[0];
-    o[2] = r[0];
-    o
-}
-pub struct StaleStorage { pub stale: Bytes32 }
-fn b(x: u8) -> Bytes32 { let mut o = [0u8; 32]; o[0] = x; o }
-impl fuel_storage::StorageInspect<T> for StaleStorage {
-    type Error = NoErr;
-    fn get(&self, key: &u64) -> Result<Option<alloc::borrow::Cow<'_, crate::binary::Primitive>>, NoErr> {
-        // persisted nodes of the 8-leaf history: leaves 0..=14 (even), balanced heads 1,5,9,13,3,11,7
-        let v: Option<crate::binary::Primitive> = match *key {
-            2 => Some((2, b(22))),
-            5 => Some((5, b(25))),
-            11 => Some((11, self.stale)),   // head of leaves 4..8 of the OLD 8-leaf tree
-            9 => Some((9, b(29))),
-            12 => Some((12, b(32))),
-            3 => Some((3, b(23))),
-            _ => None,
-        };
-        Ok(v.map(alloc::borrow::Cow::Owned))
-    }
-    fn contains_key(&self, key: &u64) -> Result<bool, NoErr> { Ok(self.get(key)?.is_some()) }
-}
-
-//@ props=C10,C11 tier=quick class=bounded(n=7) timeout=1500 -- O-C10.5 prove(0) on a 7-leaf tree whose storage also holds a stale node at the position of the tree's own join node (11): the proof carries the freshly computed join of peaks 9 and 12, not the persisted one (node_sum abstracted)
-#[kani::proof]
-#[kani::unwind(12)]
-#[kani::stub(crate::binary::node_sum, node_sum_model)]
-fn c10_prove_prefers_fresh_nodes() {
-    let stale: u8 = kani::any();
-    let mut stack = Vec::new();
-    stack.push(Node::new(Position::from_in_order_index(3), b(23)));
-    stack.push(Node::new(Position::from_in_order_index(9), b(29)));
-    stack.push(Node::new(Position::from_in_order_index(12), b(32)));
-    let tree: MerkleTree<T, StaleStorage> = MerkleTree {
-        storage: StaleStorage { stale: b(stale) },
-        nodes: MerkleRootCalculator::new_with_stack(stack),
-        leaves_count: 7,
-        phantom_table: Default::default(),
-    };
-    let fresh11 = node_sum_model(&b(29), &b(32));
-    kani::assume(b(stale) != fresh11);
-    match tree.prove(0) {
-        Ok((root, proof)) => {
-            assert!(proof.len() == 3, "O-C10.5 proof length for leaf 0 of 7");
-            assert!(proof[0] == b(22) && proof[1] == b(25), "O-C10.5 persisted siblings");
-            assert!(proof[2] == fresh11, "O-C10.5 the join node of the current tree wins over a stale persisted node");
-            assert!(root == node_sum_model(&b(23), &fresh11), "O-C10.5 root joins the peaks right to left");
-        }
-        Err(_) => assert!(false, "O-C10.5 prove succeeds when all nodes are available"),
-    }
-}
